@@ -142,14 +142,25 @@ def run(ctx):
     # decrypt = c2 - c1*sk
     dcf = ctx.need_fn("E6.decrypt", "BlsElGamal::decrypt")
     if dcf is not None:
+        from ..core import poly as PL
+        from .equations import std_atom
+
         r = strip_sites(evaluate(dcf).ret)
-        ok = r.op == "call" and B.cname(r) == "Sub::sub" and B.peel(r.a[1][0]).op == "param" and B.peel(r.a[1][0]).a[1] == "c2" and r.a[1][1].op == "call" and B.cname(r.a[1][1]) == "Mul::mul" and [B.peel(x).a[1] if B.peel(x).op == "param" else None for x in r.a[1][1].a[1]] == ["c1", "sk"]
-        ctx.ob("E6.decrypt", dcf.key, ok, "decrypt = c2 - c1*sk: %s" % show(r, 4), where=where(dcf))
+        got = PL.named(PL.poly(r, std_atom()))
+        ctx.ob("E6.decrypt", dcf.key, got == {("c2",): 1, ("c1", "sk"): -1}, "decrypt = %s (documented: c2 - c1*sk)" % PL.show_poly(PL.poly(r, std_atom()), show), where=where(dcf))
     dk = ctx.need_fn("E6.decrypt", "ElGamalDecryptionKey<C>::decrypt")
     if dk is not None:
+        from ..core import poly as PL
+
+        def _proj_atom(t):
+            pr_ = F.projection_root(t)
+            if pr_ and pr_[0].op == "param":
+                return "%s%s" % (pr_[0].a[1], pr_[1])
+            return None
+
         r = strip_sites(evaluate(dk).ret)
-        ok = r.op == "call" and B.cname(r) == "Sub::sub" and (F.projection_root(r.a[1][0]) or [None, ""])[1] == ".c2" and (F.projection_root(r.a[1][1]) or [None, ""])[1] == ".0"
-        ctx.ob("E6.decrypt", dk.key, ok, "decryption-key decrypt = ciphertext.c2 - key: %s" % show(r, 4), where=where(dk))
+        got = PL.named(PL.poly(r, _proj_atom))
+        ctx.ob("E6.decrypt", dk.key, got == {("ciphertext.c2",): 1, ("self.0",): -1}, "decryption-key decrypt = %s (documented: ciphertext.c2 - key)" % PL.show_poly(PL.poly(r, _proj_atom), show), where=where(dk))
     # seal_scalar
     ss = ctx.need_fn("E6.seal", "BlsElGamal::seal_scalar")
     if ss is not None:
@@ -159,19 +170,36 @@ def run(ctx):
         oks = [strip_sites(R.ok_value(ev.fn, ev, b)) for b in R.ok_blocks(ss)]
         # or: seal_scalar hands (pk, H*m, blinder, rng) to the sibling seal_point
         oks.append(strip_sites(inline(P, ev.ret, 1, only=lambda g: g.key == "BlsElGamal::seal_point")))
+        from ..core import poly as PL
+        from .equations import std_atom
+
+        def _seal_atom(t):
+            if R.subject_matches(t, ("opt-param", "blinder")):
+                return "b"
+            if R.subject_matches(t, ("opt-param", "generator")):
+                return "H"
+            return None
+
+        at = std_atom(_seal_atom)
         ok = False
+        shown = None
         for v in oks:
             tup = [t for t in subterms(v) if t.op == "agg" and t.a[0][0] == "tuple" and len(t.a[1]) == 2]
             if tup:
                 c1, c2 = tup[0].a[1]
-                blind = c1.a[1][1] if c1.op == "call" and B.cname(c1) == "Mul::mul" else None
-                ok1 = blind is not None and B.peel(c1.a[1][0]).op == "call" and B.cname(B.peel(c1.a[1][0])) == "Group::generator"
-                ok2 = c2.op == "call" and B.cname(c2) == "Add::add"
-                if ok2:
-                    l, r_ = c2.a[1]
-                    ok2 = l.op == "call" and B.cname(l) == "Mul::mul" and B.peel(l.a[1][0]).op == "param" and B.peel(l.a[1][0]).a[1] == "pk" and l.a[1][1] == blind and r_.op == "call" and B.cname(r_) == "Mul::mul" and B.peel(r_.a[1][1]).op == "param" and B.peel(r_.a[1][1]).a[1] == "message"
-                ok = ok1 and ok2
-        ctx.ob("E6.seal", ss.key, ok, "seal_scalar returns (G*b, pk*b + H*m) with one blinder b", where=where(ss))
+                p1, p2 = PL.named(PL.poly(c1, at)), PL.named(PL.poly(c2, at))
+                shown = "(%s, %s)" % (PL.show_poly(PL.poly(c1, at), show), PL.show_poly(PL.poly(c2, at), show))
+                ok = p1 == {("G", "b"): 1} and p2 == {("b", "pk"): 1, ("H", "message"): 1}
+        ctx.ob("E6.seal", ss.key, ok, "seal_scalar returns %s (documented: (G*b, pk*b + H*m) with one blinder b)" % shown, where=where(ss))
+    sp_ = P.fns.get("BlsElGamal::seal_point")
+    if sp_ is not None:
+        from .equations import ok_tuples
+
+        evp = evaluate(sp_)
+        for b_, v in ok_tuples(sp_, evp, 2):
+            c1, c2 = (strip_sites(x) for x in v.a[1])
+            p1, p2 = PL.named(PL.poly(c1, at)), PL.named(PL.poly(c2, at))
+            ctx.ob("E6.seal", sp_.key, p1 == {("G", "b"): 1} and p2 == {("b", "pk"): 1, ("message",): 1}, "seal_point returns (%s, %s) (documented: (G*b, pk*b + M))" % (PL.show_poly(PL.poly(c1, at), show), PL.show_poly(PL.poly(c2, at), show)), where=where(sp_, b_))
     # message generator
     mg = ctx.need_fn("E5.generator", "BlsElGamal::message_generator")
     if mg is not None:
